@@ -19,6 +19,7 @@ from typing import Any
 
 from . import core
 from .core import Check, run_tlc
+from .w_unionobs import BASE_POSITIONS, EXTRA_POSITIONS
 
 LEVEL = "model_checking"
 
@@ -26,6 +27,7 @@ CLAUSES = ["C14.lossy", "C14.wrong_variant_with_discriminator", "C14.unmapped_gu
 NAMES = ["Alpha", "Beta", "Gamma", "Delta"]
 DIGIT_NAMES = ["Pet1", "Pet2", "Pet3", "Pet4"]  # file pet_1.py, but the emitted get_mapping() imports .pet1
 FIELDS = ["a", "b", "c"]
+DIRECT_EXTRA = ["opt", "map", "rows"]
 
 
 # ---------------------------------------------------------------------------------------------
@@ -92,10 +94,13 @@ def direct_jobs(chk: Check, scen: list[dict], label: str, all_positions_upto: in
         u = d["u"]
         nv = len(u["vars"])
         cases = [{"cid": i + 1, "payload": c["p"]} for i, c in enumerate(d["cases"])]
+        # the position through which the union value is reached is a dimension: small unions at the three basic positions
+        # plus one hash-chosen wrapper position, larger ones at one hash-chosen position out of all six
+        h = stable_hash(ukey(u), chk.seed)
         if nv <= all_positions_upto:
-            pos = ["top", "field", "list"]
+            pos = ["top", "field", "list", DIRECT_EXTRA[h % 3]]
         else:
-            pos = [["top", "field", "list"][stable_hash(ukey(u), chk.seed) % 3]]
+            pos = [(["top", "field", "list"] + DIRECT_EXTRA)[h % 6]]
         jobs.append({"id": f"{label}#{n}", "vars": u["vars"], "nullable": u["nullable"], "disc": u["disc"], "cases": cases, "positions": pos})
     return jobs
 
@@ -153,7 +158,7 @@ def judge(chk: Check, traces: list[dict], label: str, via: str) -> None:
                 loc["hist"] = True
             p = t["cases"][f["cid"] - 1]["p"]
             o = next(o for o in t["obs"] if o["cid"] == f["cid"] and o["pos"] == f["pos"])
-            chk.fail(f["clause"], loc, {"u": u, "payload": p, "pos": f["pos"], "via": via, "flavour": t.get("_flavour", "plain"), "hist": "fresh" in t}, f"observed {json.dumps({k: o[k] for k in ('out', 'chosen', 'ckind', 'ekind', 'reenc')})[:400]}")
+            chk.fail(f["clause"], loc, {"u": u, "payload": p, "pos": f["pos"], "via": via, "flavour": t.get("_flavour", "plain"), "hist": "fresh" in t, "typed": t.get("_typed", False)}, f"observed {json.dumps({k: o[k] for k in ('out', 'chosen', 'ckind', 'ekind', 'reenc')})[:400]}")
         if v["drift"] and not t.get("_nodrift"):
             ndrift += len(v["drift"])
             if chk.cov.get("drift_reported", 0) < 3:
@@ -220,9 +225,9 @@ def variant_schema(v: dict, i: int, names: list[str]) -> dict:
     raise ValueError(k)
 
 
-def union_doc(u: dict, how: str, names: list[str] = NAMES, kind_enum: bool = False) -> dict:
+def union_doc(u: dict, how: str, names: list[str] = NAMES, kind_enum: bool = False, typed: bool = False) -> dict:
     """The one translation of an abstract union (UnionCodec.tla vocabulary) to an OpenAPI document: the union is the
-    schema Pet, used as a response, as the property HolderF.u and as the items of HolderL.items."""
+    schema Pet (declared with `type: object` when typed), reached through every position of w_unionobs.POSITIONS."""
     disc = u["disc"]
     prop = disc["prop"] if disc["mode"] != "none" else None
     schemas: dict[str, Any] = {}
@@ -252,9 +257,20 @@ def union_doc(u: dict, how: str, names: list[str] = NAMES, kind_enum: bool = Fal
         pet["discriminator"] = {"propertyName": prop, "mapping": {tag: f"#/components/schemas/{names[i - 1]}" for tag, i in disc["mapping"]}}
     if u["nullable"]:
         pet["nullable"] = True
+    if typed:
+        pet["type"] = "object"
     schemas["Pet"] = pet
-    schemas["HolderF"] = {"type": "object", "properties": {"u": {"$ref": "#/components/schemas/Pet"}}, "required": ["u"]}
-    schemas["HolderL"] = {"type": "object", "properties": {"items": {"type": "array", "items": {"$ref": "#/components/schemas/Pet"}}}, "required": ["items"]}
+    P = {"$ref": "#/components/schemas/Pet"}
+    arr = {"type": "array", "items": P}
+    schemas["PetList"] = dict(arr)
+    schemas["PetMap"] = {"type": "object", "additionalProperties": P}
+    schemas["Hfield"] = {"type": "object", "properties": {"u": P}, "required": ["u"]}
+    schemas["Hlist"] = {"type": "object", "properties": {"items": dict(arr)}, "required": ["items"]}
+    schemas["Hnlist"] = {"type": "object", "properties": {"items": {"$ref": "#/components/schemas/PetList"}}, "required": ["items"]}
+    schemas["Hmap"] = {"type": "object", "properties": {"m": {"type": "object", "additionalProperties": P}}, "required": ["m"]}
+    schemas["Hnmap"] = {"type": "object", "properties": {"m": {"$ref": "#/components/schemas/PetMap"}}, "required": ["m"]}
+    schemas["Hrows"] = {"type": "object", "properties": {"rows": {"type": "array", "items": dict(arr)}}, "required": ["rows"]}
+    schemas["Hopt"] = {"type": "object", "properties": {"u": P, "items": dict(arr)}}
 
     def op(oid: str, name: str) -> dict:
         return {"get": {"operationId": oid, "tags": ["pets"], "summary": oid, "responses": {"200": {"description": "ok", "content": {"application/json": {"schema": {"$ref": f"#/components/schemas/{name}"}}}}}}}
@@ -262,7 +278,7 @@ def union_doc(u: dict, how: str, names: list[str] = NAMES, kind_enum: bool = Fal
     return {
         "openapi": "3.0.3",
         "info": {"title": "unions", "version": "1.0.0"},
-        "paths": {"/pet": op("getPet", "Pet"), "/holderf": op("getHolderF", "HolderF"), "/holderl": op("getHolderL", "HolderL")},
+        "paths": {"/pet": op("getPet", "Pet"), "/pets": op("getPets", "PetList"), "/hfield": op("getHfield", "Hfield"), "/hnlist": op("getHnlist", "Hnlist")},
         "components": {"schemas": schemas},
     }
 
@@ -290,15 +306,32 @@ def pick_generated(chk: Check, fams: dict[str, list[dict]], target: int) -> list
     return out
 
 
-def replay_generated(chk: Check, picked: list[tuple[str, dict]], label: str) -> None:
+def gen_shape(chk: Check, flavour: str, u: dict) -> tuple[bool, list[str]]:
+    """Deterministic stratification of the generated family: whether the union schema also says `type: object`, and
+    through which positions it is observed (always response root / direct field / inline array item, plus 4 of the 7
+    wrapper positions, rotating by hash so that every position sees every flavour)."""
+    h = stable_hash(flavour + ukey(u), chk.seed)
+    typed = h % 4 == 0
+    if flavour == "hist":
+        return typed, list(BASE_POSITIONS)
+    start = (h // 4) % len(EXTRA_POSITIONS)
+    return typed, list(BASE_POSITIONS) + [EXTRA_POSITIONS[(start + k) % len(EXTRA_POSITIONS)] for k in range(4)]
+
+
+def replay_generated(chk: Check, picked: list[tuple[str, dict]], label: str, force: dict | None = None) -> None:
     if not picked:
         return
     root = chk.scratch.sub("gen_unions")
     jobs, pre = [], []
+    shapes = []
     for j, (flavour, d) in enumerate(picked):
         how = "oneOf" if j % 2 == 0 else "anyOf"
         u = d["u"]
-        doc = union_doc(u, how, DIGIT_NAMES if flavour == "digit" else NAMES, kind_enum=(flavour == "multi-enum"))
+        typed, positions = gen_shape(chk, flavour, u)
+        if force:
+            typed, positions = bool(force.get("typed")), [force["pos"]]
+        shapes.append((typed, positions))
+        doc = union_doc(u, how, DIGIT_NAMES if flavour == "digit" else NAMES, kind_enum=(flavour == "multi-enum"), typed=typed)
         job = {"id": f"{label}#{j}", "root": str(root), "spec": doc, "pkg": f"u{j}.client", "force": True, "nopp": True}
         if flavour == "hist":
             # v1 and v2 of one API as two top-level client packages sharing one core package
@@ -309,7 +342,7 @@ def replay_generated(chk: Check, picked: list[tuple[str, dict]], label: str) -> 
     pres = {r["id"]: r for r in core.parallel_py(chk.scratch, "harness.w_gen", pre)} if pre else {}
     gres = core.parallel_py(chk.scratch, "harness.w_gen", jobs)
     ojobs = []
-    for (flavour, d), j, g in zip(picked, jobs, gres):
+    for (flavour, d), j, g, (typed, positions) in zip(picked, jobs, gres, shapes):
         ok = g["ok"] and (flavour != "hist" or pres[j["id"] + "pre"]["ok"])
         if not ok:
             chk.cov["not_generated"] = chk.cov.get("not_generated", 0) + 1
@@ -318,7 +351,7 @@ def replay_generated(chk: Check, picked: list[tuple[str, dict]], label: str) -> 
             continue
         nm = DIGIT_NAMES if flavour == "digit" else NAMES
         names = {nm[i]: i + 1 for i, v in enumerate(d["u"]["vars"]) if v["k"] == "obj"}
-        oj = {"id": j["id"], "root": j["root"], "pkg": j["pkg"], "want": ["unions"], "alias": "Pet", "field_holder": "HolderF", "list_holder": "HolderL", "names": names, "cases": [{"cid": i + 1, "payload": c["p"]} for i, c in enumerate(d["cases"])]}
+        oj = {"id": j["id"], "root": j["root"], "pkg": j["pkg"], "want": ["unions"], "alias": "Pet", "positions": positions, "names": names, "cases": [{"cid": i + 1, "payload": c["p"]} for i, c in enumerate(d["cases"])]}
         if flavour == "hist":
             prop = d["u"]["disc"]["prop"]
             oj["core"] = j["core"]
@@ -327,7 +360,7 @@ def replay_generated(chk: Check, picked: list[tuple[str, dict]], label: str) -> 
     chk.require(len(ojobs) > 0, "no union document could be generated")
     ores = {r["id"]: r for r in core.parallel_py(chk.scratch, "harness.w_obs", ojobs, env={"VERIF_OBS_EXTRA": "harness.w_unionobs"})}
     traces = []
-    for (flavour, d), j in zip(picked, jobs):
+    for (flavour, d), j, (typed, positions) in zip(picked, jobs, shapes):
         o = ores.get(j["id"])
         if o is None:
             continue
@@ -342,7 +375,7 @@ def replay_generated(chk: Check, picked: list[tuple[str, dict]], label: str) -> 
         # union ImplChoose is evaluated on: the property-level judgement is unaffected, the model comparison is skipped
         # (likewise for the flavours whose known generator defects make the emitted code differ from the model)
         nodrift = any(v["k"] == "map" for v in d["u"]["vars"]) or flavour in ("digit", "multi-plain")
-        t = {"id": j["id"], "u": d["u"], "cases": [{"cid": i + 1, "p": c["p"]} for i, c in enumerate(d["cases"])], "obs": ob["res"], "_alias": ob["alias_repr"], "_nodrift": nodrift, "_flavour": flavour}
+        t = {"id": j["id"], "u": d["u"], "cases": [{"cid": i + 1, "p": c["p"]} for i, c in enumerate(d["cases"])], "obs": ob["res"], "_alias": ob["alias_repr"], "_nodrift": nodrift, "_flavour": flavour, "_typed": typed}
         if flavour == "hist":
             t["fresh"] = ob["fresh"]
         traces.append(t)
@@ -368,7 +401,10 @@ def run(chk: Check) -> None:
         "real converter (direct) and ~250 unions additionally through generated packages; an 'extra' family adds required-and-nullable fields "
         "(payload value null) and non-injective discriminator mappings (two values -> one variant); history replays decode another union with "
         "an equal (property, value -> class name) table first through the same converter module (direct: same-named make_dataclass families; "
-        "generated: two clients sharing one core package); non-trivial = distinct union with >=2 variants"
+        "generated: two clients sharing one core package); the position through which the union value is reached is a dimension "
+        "(generated: response root, direct field, inline array, NAMED array alias as field and as root, inline map, NAMED map alias, array of "
+        "arrays, non-required field / array, union declared with and without type: object - 3 fixed + 4 hash-rotated positions per union; "
+        "direct: top/field/list + one of Optional / Dict[str,U] / List[List[U]]); non-trivial = distinct union with >=2 variants"
     )
     chk.assumptions += [
         "JSON equality: numbers numerically (1 = 1.0), booleans/strings are not numbers; a null-valued key of the RE-ENCODING that the payload lacks is tolerated, "
@@ -401,9 +437,9 @@ def run(chk: Check) -> None:
     allpos = 3 if thorough else 2  # unions with more variants are replayed at one (hash-chosen) position each
     for fam, scen in fams.items():
         if fam == "obj" and not thorough:
-            # quick tier: every 2-variant object union, a deterministic third of the 3-variant ones (the design check above is
-            # exhaustive in both tiers; the thorough tier replays all of them)
-            scen = [d for d in scen if len(d["u"]["vars"]) == 2 or stable_hash(ukey(d["u"]), chk.seed) % 3 == 0]
+            # quick tier: every 2-variant object union, a deterministic quarter of the 3-variant ones (the design check above
+            # is exhaustive in both tiers; the thorough tier replays all of them)
+            scen = [d for d in scen if len(d["u"]["vars"]) == 2 or stable_hash(ukey(d["u"]), chk.seed) % 4 == 0]
             chk.cov["exhaustive_replay"] = False
         replay_direct(chk, scen, fam, allpos)
     hist = [d for d in fams["disc"] if d["u"]["disc"]["mode"] == "complete" and (thorough or len(d["u"]["vars"]) == 2)]
@@ -418,7 +454,7 @@ def replay(chk: Check, path: str) -> None:
     u, p = sc["u"], sc["payload"]
     d = {"u": u, "cases": [{"p": p}]}
     if sc.get("via") == "generated":
-        replay_generated(chk, [(sc.get("flavour", "plain"), d)], "replay")
+        replay_generated(chk, [(sc.get("flavour", "plain"), d)], "replay", force={"typed": sc.get("typed", False), "pos": sc.get("pos", "top")})
     else:
         jobs = [{"id": "replay", "vars": u["vars"], "nullable": u["nullable"], "disc": u["disc"], "cases": [{"cid": 1, "payload": p}], "positions": [sc.get("pos", "top")]}]
         if sc.get("hist"):
